@@ -1031,9 +1031,7 @@ impl Check for C05 {
 // ------------------------------------------------------------------------------------------------
 // C06 — union / intersection / difference / complement are exact set operations
 // ------------------------------------------------------------------------------------------------
-use beff_core::subtyping::bdd::{Atom, Bdd, BddOps};
-use beff_core::subtyping::dnf::{bdd_to_dnf, dnf_to_bdd};
-use std::rc::Rc;
+// (the parts that touch the engine's own decision-diagram API live in sem.rs, behind the `engine` feature)
 
 #[derive(Debug, Clone, Serialize, Deserialize, PartialEq)]
 pub enum BExpr {
@@ -1047,7 +1045,7 @@ pub enum BExpr {
 }
 
 impl BExpr {
-    fn eval(&self, assignment: u32) -> bool {
+    pub fn eval(&self, assignment: u32) -> bool {
         match self {
             BExpr::Atom(i) => assignment & (1 << i) != 0,
             BExpr::True => true,
@@ -1058,36 +1056,11 @@ impl BExpr {
             BExpr::Compl(a) => !a.eval(assignment),
         }
     }
-    fn build(&self) -> Rc<Bdd> {
-        match self {
-            BExpr::Atom(i) => Rc::new(Bdd::from_atom(Atom::Mapping(*i))),
-            BExpr::True => Rc::new(Bdd::True),
-            BExpr::False => Rc::new(Bdd::False),
-            BExpr::Union(a, b) => a.build().union(&b.build()),
-            BExpr::Inter(a, b) => a.build().intersect(&b.build()),
-            BExpr::Diff(a, b) => a.build().diff(&b.build()),
-            BExpr::Compl(a) => a.build().complement(),
-        }
-    }
     fn ops(&self) -> usize {
         match self {
             BExpr::Union(a, b) | BExpr::Inter(a, b) | BExpr::Diff(a, b) => 1 + a.ops() + b.ops(),
             BExpr::Compl(a) => 1 + a.ops(),
             _ => 0,
-        }
-    }
-}
-
-fn eval_bdd(b: &Bdd, assignment: u32) -> bool {
-    match b {
-        Bdd::True => true,
-        Bdd::False => false,
-        Bdd::Node { atom, left, middle, right } => {
-            let i = match atom {
-                Atom::Mapping(i) | Atom::List(i) | Atom::Map(i) | Atom::Set(i) => *i,
-            };
-            let a = assignment & (1 << i) != 0;
-            (a && eval_bdd(left, assignment)) || eval_bdd(middle, assignment) || (!a && eval_bdd(right, assignment))
         }
     }
 }
@@ -1109,26 +1082,10 @@ fn gen_bexpr(s: &mut Src, depth: usize, natoms: usize) -> BExpr {
     }
 }
 
-/// returns a description of the first disagreement
-fn check_bexpr(e: &BExpr, natoms: usize) -> Option<(String, u32)> {
-    let bdd = e.build();
-    let dnf = bdd_to_dnf(&bdd);
-    let back = dnf_to_bdd(&dnf);
-    for asg in 0..(1u32 << natoms) {
-        let want = e.eval(asg);
-        if eval_bdd(&bdd, asg) != want {
-            return Some(("bdd_ops".into(), asg));
-        }
-        let dnf_val = dnf.iter().any(|c| {
-            c.positive.iter().all(|a| eval_bdd(&Bdd::from_atom(*a), asg)) && c.negative.iter().all(|a| !eval_bdd(&Bdd::from_atom(*a), asg))
-        });
-        if dnf_val != want {
-            return Some(("bdd_to_dnf".into(), asg));
-        }
-        if eval_bdd(&back, asg) != want {
-            return Some(("dnf_to_bdd".into(), asg));
-        }
-    }
+#[cfg(feature = "engine")]
+use crate::sem::check_bexpr;
+#[cfg(not(feature = "engine"))]
+fn check_bexpr(_e: &BExpr, _natoms: usize) -> Option<(String, u32)> {
     None
 }
 
